@@ -673,6 +673,12 @@ class ExprMixin:
 
     def contains(self, container, item, st, spec):
         if isinstance(container, PyVal):
+            if container.kind == "dir" and is_sv(item) and item.ty.kind == "str" and is_sv(container.of) and container.of.ty.kind == "ref":
+                # "name" in dir(obj): whether the (user) class defines the hook is a boolean attribute of the object
+                fname = "has_" + item.aux
+                if self.reg.field(container.of.ty.arg, fname) is None:
+                    raise Unsupported("dir() membership of %r not modelled" % item.aux)
+                return self.read_field(container.of, fname, st, spec).t
             if container.kind == "const" and isinstance(container.value, (list, tuple, set, dict)):
                 if item.ty.kind == "str":
                     return z3.BoolVal(item.aux in container.value)
